@@ -135,3 +135,9 @@ theorem C06_source_bed_summary_update_is_the_models (st : Option Sm) (g : Seg) (
 
 end BSUM
 
+
+/-- **Tie to the source: entries that reach past the chromosome end are counted in full.** The summary sweep and the zoom sweep drain what is
+    still open after a chromosome's last entry up to `u32::MAX` (regenerated), above every coordinate — not up to the declared length. -/
+theorem C06_source_final_drain_is_unbounded (chromLength e : Nat) (he : e < 2 ^ 32) :
+    e ≤ Gen.bs_final_bound chromLength ∧ e ≤ Gen.bzs_final_bound chromLength :=
+  ⟨(Sweep.gen_final_bound chromLength e he).2.2.1, (Sweep.gen_final_bound chromLength e he).2.2.2⟩
